@@ -38,6 +38,7 @@ type Contract struct {
 	ModifiesSrc []string
 	LoopInv    map[int][]Clause
 	LoopDec    map[int]Clause
+	LoopMod    map[int][]SExpr
 	CallCl     []Clause
 	Trusted    bool // body not verified, contract assumed
 	Inline     bool // always inline at call sites (no modular contract)
@@ -338,6 +339,23 @@ func (ct *ContractTable) parseFile(repo, file string) error {
 				}
 				kind := fs[1]
 				r := fs[2]
+				if kind == "modifies" {
+					for _, part := range splitTopLevel(r, ',') {
+						part = strings.TrimSpace(part)
+						if part == "" {
+							continue
+						}
+						e, err := ParseSpec(part)
+						if err != nil {
+							return errf("%v", err)
+						}
+						if cur.LoopMod == nil {
+							cur.LoopMod = map[int][]SExpr{}
+						}
+						cur.LoopMod[n] = append(cur.LoopMod[n], e)
+					}
+					continue
+				}
 				if strings.HasPrefix(kind, "invariant") {
 					r = strings.TrimPrefix(kind, "invariant") + " " + r
 					kind = "invariant"
